@@ -131,7 +131,8 @@ def run_history(h):
                     a = w.is_available(prof).to(EventTime.Unit.US).time
                     if a != -1:
                         ld.append([mid, a])
-                ws.append({"wid": worker_ix[w.id], "res": vec, "loaded": ld})
+                ws.append({"wid": worker_ix[w.id], "res": vec, "loaded": ld,
+                           "placed": [tid_of[t.id] for t in w.get_placed_tasks() if t.id in tid_of]})
             out.append({"pid": pool_ix[wp.id], "workers": ws})
         return out
 
@@ -249,7 +250,7 @@ def run_history(h):
                             ok = wp.place_task(p.task, execution_strategy=p.execution_strategy, worker_id=p.worker_id)
                         except (ValueError, RuntimeError):
                             ok = False        # the live cluster refused (only possible when schedule() itself touched it)
-                        if ok:
+                        if ok and step.get("start", True):
                             p.task.start(now)
                         rec.setdefault("live_place", []).append([tid_of[p.task.id], bool(ok)])
     # final internal state of the scheduler (queues, task map, counters)
